@@ -6,11 +6,16 @@ Import ListNotations.
 (** a worker is created only while idle + busy < limit (the guard of limitedWorkerCreator), and the
     [live] recorded in the event is the team's own count at that moment *)
 Definition ev_ok (e : ev) : Prop :=
-  match e with ECreate _ live lim => live < lim | _ => True end.
+  match e with ECreate _ live lim => live < lim | EBacklog _ live lim => lim <= live | _ => True end.
 
 (** what every coordinator-side function preserves: the Team._quit flag; and its events are [ev_ok] *)
+(** events a coordinator job can emit (never a client acknowledgement or a task run) *)
+Definition coord_ev (e : ev) : Prop :=
+  match e with EAccepted _ | ERefused | ELimit | ERan _ _ | ENothing => False | _ => True end.
+Definition ev_good (e : ev) : Prop := ev_ok e /\ coord_ev e.
+
 Definition good (s : st) (r : st * list nat * list ev) : Prop :=
-  tquit (fst (fst r)) = tquit s /\ Forall ev_ok (snd r).
+  tquit (fst (fst r)) = tquit s /\ Forall ev_good (snd r).
 
 Lemma coordinate_good s t ch : good s (coordinate s t ch).
 Proof.
@@ -18,7 +23,7 @@ Proof.
   - cbn. split; [reflexivity | repeat constructor].
   - destruct (Nat.ltb (length (idle s) + busy s) (limit s)) eqn:E; cbn.
     + apply Nat.ltb_lt in E. split; [reflexivity | repeat constructor; exact E].
-    + split; [reflexivity | repeat constructor].
+    + apply Nat.ltb_ge in E. split; [reflexivity | repeat constructor; exact E].
 Qed.
 
 Lemma quit_loop_good n : forall s ch, good s (quit_loop n s ch).
@@ -27,7 +32,7 @@ Proof.
   - split; [reflexivity | constructor].
   - destruct (pop_idle (idle s) ch) as [[w idl]|].
     + match goal with |- context [quit_loop k ?s1 ?c1] => destruct (IH s1 c1) as [H1 H2]; destruct (quit_loop k s1 c1) as [[s2 ch2] es] end.
-      cbn in *. split; [exact H1 | constructor; [exact I | exact H2]].
+      cbn in *. split; [exact H1 | constructor; [exact (conj I I) | exact H2]].
     + match goal with |- context [quit_loop k ?s1 ?c1] => destruct (IH s1 c1) as [H1 H2] end.
       split; [exact H1 | exact H2].
 Qed.
@@ -63,11 +68,11 @@ Proof.
       match goal with |- context [recycle ?s0 ?w ch] =>
         destruct (recycle_good s0 w ch) as [H1 H2]; destruct (recycle s0 w ch) as [[s1 ch1] es1] end.
       destruct (IH s1 ch1) as [H3 H4]. destruct (grow_loop k s1 ch1) as [[s2 ch2] es2].
-      cbn in *. unfold good. cbn. split; [congruence|]. constructor; [exact E|]. apply Forall_app. split; assumption.
+      cbn in *. unfold good. cbn. split; [congruence|]. constructor; [exact (conj E I)|]. apply Forall_app. split; assumption.
     + split; [reflexivity | constructor].
 Qed.
 
-Lemma run_job_good s j ch : tquit (fst (run_job s j ch)) = tquit s /\ Forall ev_ok (snd (run_job s j ch)).
+Lemma run_job_good s j ch : tquit (fst (run_job s j ch)) = tquit s /\ Forall ev_good (snd (run_job s j ch)).
 Proof.
   unfold run_job. destruct j as [t | n | n | w | ].
   - destruct (coordinate_good s t ch) as [H1 H2]. destruct (coordinate s t ch) as [[s1 c1] es]. exact (conj H1 H2).
@@ -86,7 +91,7 @@ Proof.
   1-4: destruct (tquit s); cbn; repeat constructor.
   - repeat constructor.
   - destruct (coord_done s); [repeat constructor|]. destruct (coordq s) as [|j q]; [repeat constructor|].
-    apply run_job_good.
+    eapply Forall_impl; [|apply run_job_good]. intros e [H _]. exact H.
   - destruct (wq s w) as [|[t|] q]; cbn; repeat constructor.
 Qed.
 
@@ -121,14 +126,14 @@ Definition is_client (l : label) : bool :=
 Lemma client_refused s l : tquit s = true -> is_client l = true -> step s l = (s, [ERefused]).
 Proof. intros H Hl. destruct l; try discriminate; cbn [step]; unfold client; rewrite H; reflexivity. Qed.
 
-Lemma quit_sets_flag s : tquit s = false -> tquit (fst (step s Quit)) = true /\ snd (step s Quit) = [EAccepted].
+Lemma quit_sets_flag s : tquit s = false -> tquit (fst (step s Quit)) = true /\ snd (step s Quit) = [EAccepted CQuit].
 Proof. intros H. cbn [step]. rewrite H. cbn. split; reflexivity. Qed.
 
 (** non-triviality: a schedule with backlog, a raising task, shrink and quit; everything drains *)
 Example schedule_nontrivial :
   let ls := [Do (0, false); Do (1, true); Coord []; Coord []; Work 0; Coord [0]; Work 0; Quit; Coord [0]; Coord [0]] in
   let r := run (init 1) ls in
-  snd r = [[EAccepted]; [EAccepted]; [ECreate 0 0 1; EDo 0 (0, false)]; [EBacklog (1, true)]; [ERan 0 (0, false)];
-           [EDo 0 (1, true)]; [ERan 0 (1, true)]; [EAccepted]; []; [EWQuit 0; ECoordQuit]]
+  snd r = [[EAccepted (CTask (0, false))]; [EAccepted (CTask (1, true))]; [ECreate 0 0 1; EDo 0 (0, false)]; [EBacklog (1, true) 1 1]; [ERan 0 (0, false)];
+           [EDo 0 (1, true)]; [ERan 0 (1, true)]; [EAccepted CQuit]; []; [EWQuit 0; ECoordQuit]]
   /\ coord_done (fst r) = true /\ idle (fst r) = [] /\ busy (fst r) = 0.
 Proof. vm_compute. repeat split. Qed.
